@@ -43,11 +43,27 @@ type FileSpec struct {
 	Nested     bool          `json:"nested"`
 	Imported   bool          `json:"imported"`
 	WKT        bool          `json:"wkt"`
+	// Twin: the same plugin invocation also generates a second file that
+	// declares services with the SAME names in another package.
+	Twin bool   `json:"twin,omitempty"`
+	Sub  string `json:"sub,omitempty"` // directory suffix (set on the derived twin spec)
+}
+
+// TwinSpec returns the spec of the second file of a twin request.
+func (f FileSpec) TwinSpec() FileSpec {
+	t := f
+	t.Twin, t.Sub = false, "twin"
+	if f.Package == "" {
+		t.Package = "twinpkg"
+	} else {
+		t.Package = f.Package + ".twin2"
+	}
+	return t
 }
 
 const moduleRoot = "c17batch"
 
-func (f FileSpec) dir() string          { return fmt.Sprintf("%s/gen/c%d", moduleRoot, f.ID) }
+func (f FileSpec) dir() string          { return fmt.Sprintf("%s/gen/c%d%s", moduleRoot, f.ID, f.Sub) }
 func (f FileSpec) protoName() string    { return f.dir() + "/svc.proto" }
 func (f FileSpec) depDir() string       { return fmt.Sprintf("%s/gen/c%ddep", moduleRoot, f.ID) }
 func (f FileSpec) depProto() string     { return f.depDir() + "/dep.proto" }
@@ -65,7 +81,7 @@ func (f FileSpec) baseGoPkgName() string {
 	if f.GoPkgName != "" {
 		return f.GoPkgName
 	}
-	return fmt.Sprintf("c%d", f.ID)
+	return fmt.Sprintf("c%d%s", f.ID, f.Sub)
 }
 
 func (f FileSpec) parameter() string {
@@ -146,6 +162,49 @@ func unexport(s string) string {
 // Build returns the file descriptors (dependencies first) for a spec, or an
 // error if the spec is not a valid Protobuf file (such specs are discarded).
 func (f FileSpec) Build() ([]*descriptorpb.FileDescriptorProto, error) {
+	files, err := f.build()
+	if err != nil {
+		return nil, err
+	}
+	if f.Twin {
+		more, err := f.TwinSpec().build()
+		if err != nil {
+			return nil, err
+		}
+		for _, m := range more {
+			dup := false
+			for _, have := range files {
+				if have.GetName() == m.GetName() {
+					dup = true
+				}
+			}
+			if !dup {
+				files = append(files, m)
+			}
+		}
+	}
+	// validate with protodesc (this is what makes the files "valid")
+	reg := new(protoregistry.Files)
+	for _, name := range []string{"google/protobuf/empty.proto", "google/protobuf/duration.proto"} {
+		d, err := protoregistry.GlobalFiles.FindFileByPath(name)
+		if err != nil {
+			return nil, err
+		}
+		_ = reg.RegisterFile(d)
+	}
+	for _, p := range files {
+		d, err := protodesc.NewFile(p, reg)
+		if err != nil {
+			return nil, err
+		}
+		if err := reg.RegisterFile(d); err != nil {
+			return nil, err
+		}
+	}
+	return files, nil
+}
+
+func (f FileSpec) build() ([]*descriptorpb.FileDescriptorProto, error) {
 	var files []*descriptorpb.FileDescriptorProto
 	fd := &descriptorpb.FileDescriptorProto{
 		Name:    proto.String(f.protoName()),
@@ -226,24 +285,6 @@ func (f FileSpec) Build() ([]*descriptorpb.FileDescriptorProto, error) {
 		fd.SourceCodeInfo = sci
 	}
 	files = append(files, fd)
-	// validate with protodesc (this is what makes the file "valid")
-	reg := new(protoregistry.Files)
-	for _, name := range []string{"google/protobuf/empty.proto", "google/protobuf/duration.proto"} {
-		d, err := protoregistry.GlobalFiles.FindFileByPath(name)
-		if err != nil {
-			return nil, err
-		}
-		_ = reg.RegisterFile(d)
-	}
-	for _, p := range files {
-		d, err := protodesc.NewFile(p, reg)
-		if err != nil {
-			return nil, err
-		}
-		if err := reg.RegisterFile(d); err != nil {
-			return nil, err
-		}
-	}
 	return files, nil
 }
 
